@@ -13,7 +13,9 @@ def plan(tier, seed):
     div, ops = [], []
     same = [(l, r) for l in UPTO64 for r in UPTO64 if signed(l) == signed(r)]
     # value-preserving mixed signedness pairs: unsigned narrower than the signed side's promoted type
-    mixed = [(S8, U8), (U8, S8), (S32, U16), (U8, S64), (S16, U32), (U32, S64)]
+    # (every such pair, both orders: the common type is signed because the unsigned side is promoted or narrower)
+    mixed = [(l, r) for l in (S8, S16, S32, S64) for r in (U8, U16, U32) if bits(r) < max(32, bits(l))]
+    mixed = mixed + [(r, l) for l, r in mixed]
     for tag in ROUNDING_TAGS:
         for l, r in same + mixed:
             if quick and bits(l) != bits(r) and (bits(l), bits(r)) not in ((8, 32), (32, 8), (64, 32), (32, 64), (16, 8)) and (l, r) not in mixed:
